@@ -28,6 +28,7 @@
   key-on of a note that ends inside the update it starts in is written after its key-off.
 -/
 import Ctrmml.Proofs.MdDriver
+import Ctrmml.Proofs.TickStream
 import Ctrmml.Spec.Schedule
 namespace Ctrmml.C07
 open Ctrmml Ctrmml.MdDriver Tables
@@ -128,6 +129,27 @@ theorem C07_log_on_grid (d : Data) (song : Song) (tags : Vgm.Tags) (ops : List V
       · exact hloop p hp hw
       · simp [stamps] at hp
         rcases hp with rfl | rfl <;> simp [isWrite] at hw
+
+/-- **Tick delivery (first pass of a track).**  Let `items` be the structural expansion `perf`
+of a track of a song without explicit `END` events, platform commands or drum mode, whose
+expansion stays within the step budget of the fetch loop.  Then the `n`-th call of
+`Player::play_tick` (from a fresh player) calls `write_event` with exactly what the list machine
+`TickStream.lmTick` delivers at its `n`-th tick when loaded with `items`: a synthetic `REST`
+when an on-time runs out and off-time is left (i.e. at `start + on` when `off > 0`), and, when
+the current item has elapsed, the next items of `perf` up to and including the first one with
+a duration — each item at the tick equal to its start time (`C07_list_machine_times`).  This
+holds for every `n` up to the end of the first pass (while the list machine is live). -/
+theorem C07_tick_delivery (song : Song) (root : List Event) (pd : Int → Bool)
+    (hs : Refine.SongNoEnd song) (hr : Tree.NoEnd root) (hplain : TickStream.PlainCode song root)
+    (items : List Expand.Item) (hperf : Expand.perf song root = .ok items)
+    (hfuel : ∀ k outs, Refine.stepsCore song root k ⟨.root, 0, []⟩ = .ok (⟨.root, root.length, []⟩, outs) →
+      k ≤ PlayerCh.settleFuel)
+    (n : Nat) (hlive : ∀ j, j < n → (TickStream.lmAfter (j + 1) ⟨0, 0, items⟩).live) :
+    TickStream.tickEvents song root pd n PlayerCh.initPS = TickStream.lmRun n ⟨0, 0, items⟩ := by
+  have hrel := TickStream.rel_init song root hs hr items hperf hfuel
+  obtain ⟨s', hrun, _⟩ := TickStream.ct_sim_run song root _ n _ _ hrel hlive
+  exact TickStream.tickEvents_ct song root pd (TickStream.plainHooks_of song root hplain) n PlayerCh.initPS rfl
+    (by unfold TickStream.drumOff; decide) s' _ hrun
 
 /-- **Tempo accumulator, closed form.**  `n` sequence updates at constant tempo `δ` from
 counter `c` play `(c + n(δ+1)) div 128` ticks and leave the counter `(c + n(δ+1)) mod 128`. -/
